@@ -51,18 +51,20 @@ theorem missing_line_is_parse_error :
     (match parseTle [l1] with | .error (.lineCount 1) => true | _ => false) = true ∧
     (match parseTle [] with | .error (.lineCount 0) => true | _ => false) = true := by decide
 
-/-! ### open finding C12-blank-drag-field-indexerror (counter-witness: the code falsifies "a multi-TLE text yields exactly its valid entries") -/
+/-! ### repaired finding C12-blank-drag-field-indexerror (3f7f532) — regression witness
+
+History: `blank_drag_field_ends_generator` proved, against the code before 3f7f532, that `parseTle [l1BlankBstar, l2]` was
+`.error .indexError` and that `fromString [l1BlankBstar, l2, m1, m2]` yielded nothing and ended with `some .indexError`. -/
 
 /-- line 1 of the reference TLE with a blank B* field; the checksum is still 7 -/
 def l1BlankBstar : Str := "1 25544U 98067A   08264.51782528 -.00002182  00000-0          0  2927".toList
 
-/-- `Tle(text)` raises `IndexError` (`_float` indexes `text[0]` of the empty field) although length, line numbers and checksums are
-right; `from_string` catches `ValueError` only, so the generator ends there and the valid entry `m1, m2` that follows is lost -/
-theorem blank_drag_field_ends_generator :
+/-- a blank drag field is refused with a `ValueError` although length, line numbers and checksums are right; `from_string`
+skips the entry and goes on: the valid entry `m1, m2` that follows is yielded -/
+theorem blank_drag_field_skipped :
     (checkValidity [l1BlankBstar, l2]).toOption.isSome = true ∧
-    (match parseTle [l1BlankBstar, l2] with | .error .indexError => true | _ => false) = true ∧
-    (fromString [l1BlankBstar, l2, m1, m2]).out = [] ∧ (fromString [l1BlankBstar, l2, m1, m2]).abort = some .indexError ∧
-    ((fromString [m1, m2]).out.map (·.norad)) = [14] := by decide
+    (match parseTle [l1BlankBstar, l2] with | .error .valueError => true | _ => false) = true ∧
+    ((fromString [l1BlankBstar, l2, m1, m2]).out.map (·.norad)) = [14] ∧ (fromString [l1BlankBstar, l2, m1, m2]).abort = none := by decide
 
 /-! ### catalogue numbers outside the quantifier (`Model/TleOrb.lean`; `Props/C12Orb.lean` proves the general statements) -/
 
